@@ -1179,7 +1179,7 @@ private theorem findIdx?_take_of_le {β : Type} (p : β → Bool) (l : List β) 
   · intro j hj
     rw [List.getElem_take]; exact hnot j hj
 
-/-- the heart of C15_window_partial, on a list of (coordinate, value) pairs -/
+/-- the heart of `window_slice` (ascending coordinates: the window is a contiguous index range), on a list of (coordinate, value) pairs -/
 private theorem window_pairs (Z : List (Rat × α)) (hs : Z.Pairwise (fun p q => p.1 < q.1))
     (i : Nat) (hi : i < Z.length) (start : Rat) (hstart : start < Z[i].1) :
     ∃ k, Z.findIdx? (fun p => decide (start < p.1)) = some k ∧ k ≤ i ∧
@@ -1230,29 +1230,47 @@ private theorem window_slice {α : Type} (cs : List Rat) (vs : List α) (hlen : 
     rw [hget] at hf
     rw [hf, List.map_drop, List.map_take, List.map_snd_zip (by omega)]
 
-/-- **The trailing window** (`_partial`: carries `StrictAsc cs`; the full statement without it is
-false for the code, see `C15_window_unsorted_counterexample` below, known finding
-window-unsorted).  For strictly ascending coordinates and a positive window length
-(`h·scale`; scale = 1 for lead times in hours, 3600 for unix times), the pre-aggregated value at
+/-- the selection by value of the code, on rational coordinates, is the Spec's window -/
+private theorem selectWindow_fin {α : Type} (cs : List Rat) (vs : List α) (a b : Rat) :
+    Preagg.selectWindow (cs.map fin) vs (fin a) (fin b) =
+      ((cs.zip vs).filter fun p => decide (a < p.1 ∧ p.1 ≤ b)).map (·.2) := by
+  unfold Preagg.selectWindow
+  induction cs generalizing vs with
+  | nil => simp
+  | cons c cs ih =>
+    cases vs with
+    | nil => simp
+    | cons v vs =>
+      simp only [List.map_cons, List.zip_cons_cons, List.filter_cons]
+      have hc : (XR.gt (fin c) (fin a) && XR.le (fin c) (fin b)) = decide (a < c ∧ c ≤ b) := by
+        simp [XR.gt, XR.lt, XR.le, Bool.decide_and]
+      rw [hc]
+      by_cases hp : a < c ∧ c ≤ b
+      · simp only [hp, and_self, decide_true, if_true, List.map_cons, ih]
+      · simp only [hp, decide_false, Bool.false_eq_true, if_false, ih]
+
+/-- **The trailing window**, full strength: for EVERY list of coordinates (any order, repeated values,
+irregular spacing), every window length (`h·scale`; scale = 1 for lead times in hours, 3600 for unix
+times), every aggregator `f`, every series and every position i, the pre-aggregated value at
 position i is the aggregator applied to exactly the entries whose coordinate lies in
-(xᵢ − h·scale, xᵢ], in series order — for every aggregator `f`, every series, every grid
-(irregular spacing included), every i. -/
-theorem C15_window_partial (f : Vec → Option XR) (h scale : Rat) (hpos : 0 < h * scale) (cs : List Rat)
-    (vs : Vec) (hlen : cs.length = List.length vs) (hasc : StrictAsc cs) (i : Nat) (hi : i < cs.length) :
+(xᵢ − h·scale, xᵢ], in series order.  (Before the repair of the window selection this needed
+`StrictAsc cs`.) -/
+theorem C15_window (f : Vec → Option XR) (h scale : Rat) (cs : List Rat)
+    (vs : Vec) (i : Nat) (hi : i < cs.length) :
     Preagg.preaggAt f (fin scale) (fin h) (cs.map fin) vs i =
       f (Stats.window cs vs (h * scale) cs[i]) := by
-  obtain ⟨k, hk, _, hw⟩ := window_slice cs vs hlen hasc i hi (h * scale) hpos
   unfold Preagg.preaggAt
   have hc : (cs.map fin)[i]? = some (fin cs[i]) := by
     rw [List.getElem?_map, List.getElem?_eq_getElem hi]; rfl
   rw [hc]
   simp only [fin_mul, fin_sub]
-  rw [hk, hw]
+  rw [selectWindow_fin]
+  rfl
 
 /-- the whole pre-aggregated series is the Spec's `preagg`: entry by entry the aggregate of the
 trailing window (and it has the length of the series) -/
-theorem C15_window_series (f : Vec → Option XR) (h scale : Rat) (hpos : 0 < h * scale)
-    (cs : List Rat) (vs : Vec) (hlen : cs.length = List.length vs) (hasc : StrictAsc cs) (r : Vec)
+theorem C15_window_series (f : Vec → Option XR) (h scale : Rat)
+    (cs : List Rat) (vs : Vec) (hlen : cs.length = List.length vs) (r : Vec)
     (hr : Preagg.preagg1 f (fin scale) (fin h) (cs.map fin) vs = some r) :
     r.length = cs.length ∧
     ∀ i (hi : i < cs.length), r[i]? = (Stats.preagg f cs vs (h * scale))[i]'(by
@@ -1265,7 +1283,7 @@ theorem C15_window_series (f : Vec → Option XR) (h scale : Rat) (hpos : 0 < h 
   intro i hi
   rw [hg i (by omega)]
   simp only [List.getElem_range, Stats.preagg, List.getElem_map]
-  exact C15_window_partial f h scale hpos cs vs hlen hasc i hi
+  exact C15_window f h scale cs vs i hi
 
 /-- a window longer than the series so far takes all earlier entries (and the entry itself) -/
 theorem C15_window_long (cs : List Rat) (vs : Vec) (hlen : cs.length = List.length vs)
@@ -1286,21 +1304,20 @@ theorem C15_window_long (cs : List Rat) (vs : Vec) (hlen : cs.length = List.leng
   cases hk
   rw [hwin]; rfl
 
-/-- the index range of the window depends on the coordinates only: observations, forecasts, every
-other field and every ensemble member of one input are cut by the same (first, t) — the
+/-- the window depends on the coordinates only: observations, forecasts, every other field and
+every ensemble member of one input are cut by the same interval (start, x_t] of coordinate values — the
 "identically for observations and forecasts" clause is structural (one function for all) -/
 theorem C15_window_same_for_all_fields (f g : Vec → Option XR) (scale h : XR) (coords : List XR)
     (obs fcst : Vec) (t : Nat) :
-    ∃ w : Option Nat,
-      Preagg.preaggAt f scale h coords obs t = w.bind (fun first => f (Preagg.slice obs first t)) ∧
-      Preagg.preaggAt g scale h coords fcst t = w.bind (fun first => g (Preagg.slice fcst first t)) := by
+    ∃ w : Option (XR × XR),
+      Preagg.preaggAt f scale h coords obs t =
+        w.bind (fun se => f (Preagg.selectWindow coords obs se.1 se.2)) ∧
+      Preagg.preaggAt g scale h coords fcst t =
+        w.bind (fun se => g (Preagg.selectWindow coords fcst se.1 se.2)) := by
   unfold Preagg.preaggAt
   cases coords[t]? with
   | none => exact ⟨none, rfl, rfl⟩
-  | some ct =>
-    cases hfa : Preagg.firstAbove coords (ct - h * scale) with
-    | none => exact ⟨none, by simp [hfa], by simp [hfa]⟩
-    | some k => exact ⟨some k, by simp [hfa], by simp [hfa]⟩
+  | some ct => exact ⟨some (ct - h * scale, ct), rfl, rfl⟩
 
 /-! ### n-d arrays: (time, leadtime, location[, member]) along axis k -/
 
@@ -1331,7 +1348,7 @@ private theorem flat_get {β : Type} (G : Nat → List β) (L outer o j : Nat) (
 
 /-- On an array of any rank the pre-aggregation along axis k (row-major outer × n × inner) keeps
 the shape and fills cell (o, t, i) with the pre-aggregated value at position t of the series
-(o, ·, i) — so `C15_window_partial` applies to every time/location/member series separately. -/
+(o, ·, i) — so `C15_window` applies to every time/location/member series separately. -/
 theorem C15_window_arr (f : Vec → Option XR) (scale h : XR) (coords : List XR) (k : Nat)
     (arr r : Arr) (n : Nat) (hn : arr.dims[k]? = some n)
     (hr : Preagg.preaggArr f scale h coords k arr = some r) :
@@ -1345,61 +1362,60 @@ theorem C15_window_arr (f : Vec → Option XR) (scale h : XR) (coords : List XR)
   dsimp only at hr
   split at hr
   · simp at hr
-  · split at hr
-    · simp at hr
-    · generalize hcells : ((List.range (Arr.prod (arr.dims.take k))).flatMap fun o =>
-          (List.range n).flatMap fun t => (List.range (Arr.prod (arr.dims.drop (k + 1)))).map fun i =>
-            Preagg.preaggAt f scale h coords
-              (Arr.fiberAt arr.data n (Arr.prod (arr.dims.drop (k + 1))) o i) t) = cells at hr
-      cases hm : cells.mapM id with
-      | none => rw [hm] at hr; simp at hr
-      | some d =>
-        rw [hm] at hr
-        simp only [Option.map_some, Option.some.injEq] at hr
-        subst hr
-        refine ⟨rfl, ?_⟩
-        intro o t i ho ht hi
-        obtain ⟨hl, hget⟩ := mapM_some id cells d hm
-        set inner := Arr.prod (arr.dims.drop (k + 1)) with hinner
-        set cell := fun o t i => Preagg.preaggAt f scale h coords (Arr.fiberAt arr.data n inner o i) t
-          with hcell
-        have hG : ∀ o, ((List.range n).flatMap fun t => (List.range inner).map fun i => cell o t i).length
-            = n * inner := fun o => grid_length (fun t i => cell o t i) n inner
-        have e : (o * n + t) * inner + i = o * (n * inner) + (t * inner + i) := by ring
-        have hti : t * inner + i < n * inner := by
-          have h1 : (t + 1) * inner ≤ n * inner := Nat.mul_le_mul_right _ (by omega)
-          rw [Nat.succ_mul] at h1; omega
-        have hc : cells[(o * n + t) * inner + i]? = some (cell o t i) := by
-          rw [← hcells, e, flat_get _ (n * inner) _ o (t * inner + i) hG ho hti]
-          exact grid_get (fun t i => cell o t i) n inner t i ht hi
-        have hlt : (o * n + t) * inner + i < cells.length := by
-          by_contra hcon
-          rw [List.getElem?_eq_none (by omega)] at hc
-          simp at hc
-        rw [hget _ hlt]
-        rw [List.getElem?_eq_getElem hlt] at hc
-        simp only [id]
-        exact Option.some.inj hc
+  · generalize hcells : ((List.range (Arr.prod (arr.dims.take k))).flatMap fun o =>
+        (List.range n).flatMap fun t => (List.range (Arr.prod (arr.dims.drop (k + 1)))).map fun i =>
+          Preagg.preaggAt f scale h coords
+            (Arr.fiberAt arr.data n (Arr.prod (arr.dims.drop (k + 1))) o i) t) = cells at hr
+    cases hm : cells.mapM id with
+    | none => rw [hm] at hr; simp at hr
+    | some d =>
+      rw [hm] at hr
+      simp only [Option.map_some, Option.some.injEq] at hr
+      subst hr
+      refine ⟨rfl, ?_⟩
+      intro o t i ho ht hi
+      obtain ⟨hl, hget⟩ := mapM_some id cells d hm
+      set inner := Arr.prod (arr.dims.drop (k + 1)) with hinner
+      set cell := fun o t i => Preagg.preaggAt f scale h coords (Arr.fiberAt arr.data n inner o i) t
+        with hcell
+      have hG : ∀ o, ((List.range n).flatMap fun t => (List.range inner).map fun i => cell o t i).length
+          = n * inner := fun o => grid_length (fun t i => cell o t i) n inner
+      have e : (o * n + t) * inner + i = o * (n * inner) + (t * inner + i) := by ring
+      have hti : t * inner + i < n * inner := by
+        have h1 : (t + 1) * inner ≤ n * inner := Nat.mul_le_mul_right _ (by omega)
+        rw [Nat.succ_mul] at h1; omega
+      have hc : cells[(o * n + t) * inner + i]? = some (cell o t i) := by
+        rw [← hcells, e, flat_get _ (n * inner) _ o (t * inner + i) hG ho hti]
+        exact grid_get (fun t i => cell o t i) n inner t i ht hi
+      have hlt : (o * n + t) * inner + i < cells.length := by
+        by_contra hcon
+        rw [List.getElem?_eq_none (by omega)] at hc
+        simp at hc
+      rw [hget _ hlt]
+      rw [List.getElem?_eq_getElem hlt] at hc
+      simp only [id]
+      exact Option.some.inj hc
 
-/-! ### outside the hypothesis: coordinates that are not ascending (known finding window-unsorted) -/
+/-! ### coordinates that are not ascending (formerly known finding window-unsorted) -/
 
-/-- The full-strength statement (no `StrictAsc`) is FALSE for the code: on the lead times
-[1, 0] with values [10, 1], `-T 1/2 -Tagg sum` gives 11 at lead time 0 (the index range [0, 1]),
-whereas the trailing window (−1/2, 0] contains only the value 1.  `C15_window_partial` is therefore the
-`_partial` form of
-
-    theorem C15_window_full : ∀ f h scale cs vs i, 0 < h * scale → cs.length = vs.length → i < cs.length →
-        preaggAt f (fin scale) (fin h) (cs.map fin) vs i = f (Stats.window cs vs (h * scale) cs[i])
-
-with the hypothesis `StrictAsc cs` the defect forces. -/
-theorem C15_window_unsorted_counterexample :
+/-- The recorded witness: on the lead times [1, 0] with values [10, 1], `-T 1/2 -Tagg sum` used to
+give 11 at lead time 0 (the index range [0, 1]); the trailing window (−1/2, 0] contains only the
+value 1, and that is what the repaired selection aggregates — an instance of `C15_window` without
+`StrictAsc`. -/
+example :
     Preagg.preaggAt (Agg.apply ⟨id, id, id, id⟩ .sum) (fin 1) (fin (1 / 2)) [fin 1, fin 0] [fin 10, fin 1] 1
-      = some (fin 11) ∧
+      = some (fin 1) ∧
     Agg.apply ⟨id, id, id, id⟩ .sum (Stats.window [1, 0] [fin 10, fin 1] (1 / 2 * 1) 0) = some (fin 1) ∧
     ¬ StrictAsc [1, 0] := by
   refine ⟨by decide +kernel, by decide +kernel, ?_⟩
   unfold StrictAsc
   simp
+
+/-- repeated and shuffled coordinates: every position holding the same coordinate gets the same window -/
+example :
+    Preagg.preagg1 (Agg.apply ⟨id, id, id, id⟩ .sum) (fin 1) (fin 2) [fin 3, fin 0, fin 3, fin 2]
+      [fin 1, fin 2, fin 4, fin 8] = some [fin 13, fin 2, fin 13, fin 8] := by
+  decide +kernel
 
 /-! ### which fields are pre-aggregated (known finding tagg-quantile-ignored) -/
 
